@@ -70,6 +70,10 @@ def generate(ctx):
     nmix = ctx.scale(150, 1500)
     for i in range(nmix):
         yield {"k": "mix", "via": VIAS[i % len(VIAS)], "s": subseed("c01", ctx.seed, "mix", ctx.shard, i)}
+    # unrelated configuration must not leak into the stream: comparison ignore-lists active while writing / reading
+    for i in range(ctx.scale(24, 200)):
+        yield {"k": "cfg", "via": VIAS[i % len(VIAS)], "ignore": [["_generated"], ["_source", "_version"], ["<first>"], ["<all>"]][i % 4],
+               "s": subseed("c01", ctx.seed, "cfg", ctx.shard, i)}
 
 
 def roundtrip(ctx, records, via):
@@ -140,12 +144,31 @@ def execute(ctx, case):
     for r in records:
         observe.assert_typed(r, "written")
     via = case["via"]
+    restore = None
+    if case.get("ignore"):
+        import flow.record.base as base
+
+        names = set()
+        for n in case["ignore"]:
+            if n == "<first>":
+                names.update(r._desc.get_field_tuples()[0][1] for r in records if hasattr(r, "_desc") and r._desc.get_field_tuples())
+            elif n == "<all>":
+                for r in records:
+                    names.update(getattr(r, "__slots__", ()))
+            else:
+                names.add(n)
+        restore = set(base.IGNORE_FIELDS_FOR_COMPARISON)
+        base.set_ignored_fields_for_comparison(names)
+        ctx.event("cases_with_comparison_ignore_list_active")
     try:
         got = roundtrip(ctx, records, via)
     except Exception as e:  # noqa: BLE001 - a valid sequence must be writable and readable
         ctx.violation(None, "round trip via %s raised %s" % (via, type(e).__name__),
-                      detail={"exception": repr(e)[:400], "records": workload.describe(records)})
+                      detail={"exception": repr(e)[:400], "records": workload.describe(records), "ignore": case.get("ignore")})
         return
+    finally:
+        if restore is not None:
+            base.set_ignored_fields_for_comparison(restore)
     after_write = [observe.obs(r) for r in records]
     if after_write != before:
         ctx.violation(None, "writing mutated the record", detail={"diff": observe.first_diff(before, after_write)})
